@@ -527,6 +527,10 @@ func runC10(e *sim.Env) {
 	// run the honest server for the rest of the exchange but countersigns
 	// whatever revision the renter agreed to sign
 	countersign, corrupted := false, false
+	// answerAnything: the Byzantine host answers the first message of an
+	// exchange itself (requests an honest host would refuse)
+	answerAnything := false
+	var freeRoots []types.Hash256 // the contract's roots, for the host's own free-sectors answer
 	var signer *fundAndSign
 	base.rhpRig = newRHPRig(e, "C10", simrhp.TypedRelayAnswering(func(n int, id types.Specifier, step int, st simrhp.Step, o proto4.Object, raw []byte) simrhp.Action {
 		if mutate != nil && !st.FromRenter {
@@ -535,10 +539,46 @@ func runC10(e *sim.Env) {
 		if countersign && corrupted && st.FromRenter && step > 0 && raw == nil {
 			return simrhp.Impersonate
 		}
+		if answerAnything && st.FromRenter && step == 0 && raw == nil {
+			return simrhp.Impersonate
+		}
 		return simrhp.Pass
 	}, func(n int, id types.Specifier, step int, renterMsg proto4.Object) proto4.Object {
 		sig := base.hostKey.SignHash(signer.lastHash)
-		switch renterMsg.(type) {
+		switch m := renterMsg.(type) {
+		case *proto4.RPCFreeSectorsRequest:
+			// a host that frees whatever list it is sent, duplicates included,
+			// with a proof that is valid for exactly that list
+			roots := append([]types.Hash256(nil), freeRoots...)
+			var resp *proto4.RPCFreeSectorsResponse
+			func() {
+				defer func() { recover() }()
+				for _, idx := range m.Indices {
+					if idx >= uint64(len(roots)) {
+						return
+					}
+				}
+				th, lh := proto4.BuildFreeSectorsProof(roots, m.Indices)
+				k := len(roots)
+				for i, idx := range m.Indices {
+					roots[idx], roots[k-i-1] = roots[k-i-1], roots[idx]
+				}
+				roots = roots[:k-len(m.Indices)]
+				resp = &proto4.RPCFreeSectorsResponse{OldSubtreeHashes: th, OldLeafHashes: lh, NewMerkleRoot: proto4.MetaRoot(roots)}
+			}()
+			if resp == nil {
+				return nil
+			}
+			return resp
+		case *proto4.RPCSectorRootsRequest:
+			// a host that answers any request for roots, whatever the range:
+			// as many made-up roots as asked for, no proof, a genuine signature
+			// over the revision the renter paid with
+			resp := &proto4.RPCSectorRootsResponse{HostSignature: sig}
+			for i := uint64(0); i < m.Length && i < 64; i++ {
+				resp.Roots = append(resp.Roots, types.HashBytes([]byte{byte(i), 0xC1, 0x0}))
+			}
+			return resp
 		case *proto4.RPCAppendSectorsSecondResponse:
 			return &proto4.RPCAppendSectorsThirdResponse{HostSignature: sig}
 		case *proto4.RPCFreeSectorsSecondResponse:
@@ -663,6 +703,75 @@ func runC10(e *sim.Env) {
 			}
 		}
 	}
+	// requests an honest host refuses, put to a host that answers anyway:
+	// sector roots of a range that reaches beyond the contract, and roots of a
+	// contract without sectors. Nothing the host can say makes those the
+	// contract's roots.
+	{
+		n := c.contract.Revision.Filesize / proto4.SectorSize
+		empty := c.form(types.Siacoins(2000), types.Siacoins(200), 100)
+		c.mine(1)
+		c.refreshPrices()
+		type probe struct {
+			what     string
+			contract rhp4.ContractRevision
+			off, l   uint64
+		}
+		for _, pr := range []probe{
+			{"range beyond the contract", c.contract, n - uint64(e.Range(0, 2)), uint64(e.Range(3, 6))},
+			{"range starting beyond the contract", c.contract, n + uint64(e.Range(0, 3)), uint64(e.Range(1, 4))},
+			{"contract without sectors", empty, 0, uint64(e.Range(1, 3))},
+		} {
+			e.Step()
+			answerAnything = true
+			var res rhp4.RPCSectorRootsResult
+			var err error
+			e.Guard("C10.panic", "RPCSectorRoots ("+pr.what+", answered by the host anyway)", func() {
+				res, err = rhp4.RPCSectorRoots(ctx, c.tr, c.cs(), c.prices, c.signer, pr.contract, pr.off, pr.l)
+			})
+			answerAnything = false
+			waitQuiet()
+			e.Logf("RPCSectorRoots(%s: offset %d length %d) answered by the host anyway -> err=%v", pr.what, pr.off, pr.l, err)
+			e.Shape("roots-out-of-range", pr.what, fmt.Sprint(err != nil))
+			e.Fault("host-answers-out-of-range-roots")
+			if err == nil {
+				e.Violationf("C10.roots-bound", "out-of-range:"+pr.what, "RPCSectorRoots(offset %d, length %d) of a contract with %d sectors (%s) succeeded with %d roots the host made up, paying %v", pr.off, pr.l, pr.contract.Revision.Filesize/proto4.SectorSize, pr.what, len(res.Roots), res.Usage.RenterCost())
+			}
+			cases++
+		}
+		c.syncFromHost()
+		// free sectors with a repeated index that is not adjacent in the list,
+		// put to a host that frees whatever list arrives: the signed revision
+		// frees the distinct indices asked for, no more
+		if roots := c.hostRoots(); len(roots) >= 4 {
+			e.Step()
+			k := uint64(len(roots))
+			a := uint64(e.Range(1, int(k)-2))
+			b := uint64(e.Intn(int(a)))
+			indices := []uint64{a, b, a}
+			freeRoots = roots
+			want := applyFreeModel(roots, indices)
+			answerAnything = true
+			var res rhp4.RPCFreeSectorsResult
+			var err error
+			e.Guard("C10.panic", "RPCFreeSectors (repeated index, lenient host)", func() {
+				res, err = rhp4.RPCFreeSectors(ctx, c.tr, c.signer, c.cs(), c.prices, c.contract, indices)
+			})
+			answerAnything = false
+			waitQuiet()
+			e.Logf("RPCFreeSectors(%v of %d) in front of a host that frees whatever it is sent -> err=%v", indices, k, err)
+			e.Shape("free-repeated-index", fmt.Sprint(err != nil))
+			e.Fault("host-frees-any-list")
+			if err == nil {
+				if res.Revision.Filesize != uint64(len(want))*proto4.SectorSize || res.Revision.FileMerkleRoot != proto4.MetaRoot(want) {
+					e.Violationf("C10.free-bound", "repeated-index", "RPCFreeSectors(%v) of a contract with %d sectors succeeded with a revision of %d sectors (Merkle root matches the list model: %v): the renter signed away sectors it did not ask to free", indices, k, res.Revision.Filesize/proto4.SectorSize, res.Revision.FileMerkleRoot == proto4.MetaRoot(want))
+				}
+				e.Probe("lenient_host_free_accepted")
+			}
+			cases++
+			c.syncFromHost()
+		}
+	}
 	e.Probes["table_cases"] += cases
 	e.Nontrivial = true
 }
@@ -670,7 +779,7 @@ func runC10(e *sim.Env) {
 func init() {
 	register(&Prop{
 		ID: "C10", Run: runC10, Quick: 120, Thorough: 3000, Level: "fault_enumeration",
-		Rule:        "each run walks a complete table: for every renter RPC (read, write, verify, append, free, sector roots, fund accounts, replenish accounts, latest revision, form contract) an undisturbed exchange is probed for its host->renter messages, then the RPC is repeated once per (message, field, corruption) with the real server behind a typed relay acting as the Byzantine host: proofs and root lists flipped / truncated / extended / replaced by values of another exchange, lengths and counts changed, data bytes flipped or replaced by another sector's, Merkle roots flipped or left unchanged, host signatures flipped / replayed / genuine-but-over-something-else, accepted flags flipped or all cleared together with an arbitrary new root, deposits above the target or inflated, a shorter read answered coherently (shorter length with its own genuine proof), host inputs dropped, final transaction altered or empty; every corruption of a message that the renter answers with its signature is run twice: in front of the honest server, and from a host that then countersigns whatever revision the renter signed; concrete values (offsets, indices, bits) are drawn; oracle: the call returns an error or the binding predicate holds against the harness's ground truth (sector bytes, real roots, list model, host key, price table); distinct = (rpc, message, corruption, outcome); all runs non-trivial",
+		Rule:        "each run walks a complete table: for every renter RPC (read, write, verify, append, free, sector roots, fund accounts, replenish accounts, latest revision, form contract) an undisturbed exchange is probed for its host->renter messages, then the RPC is repeated once per (message, field, corruption) with the real server behind a typed relay acting as the Byzantine host: proofs and root lists flipped / truncated / extended / replaced by values of another exchange, lengths and counts changed, data bytes flipped or replaced by another sector's, Merkle roots flipped or left unchanged, host signatures flipped / replayed / genuine-but-over-something-else, accepted flags flipped or all cleared together with an arbitrary new root, deposits above the target or inflated, a shorter read answered coherently (shorter length with its own genuine proof), host inputs dropped, final transaction altered or empty; sector-root requests an honest host refuses (range beyond the contract, contract without sectors) answered by a host that makes roots up; a free-sectors call with a repeated, non-adjacent index in front of a host that frees whatever list it is sent; every corruption of a message that the renter answers with its signature is run twice: in front of the honest server, and from a host that then countersigns whatever revision the renter signed; concrete values (offsets, indices, bits) are drawn; oracle: the call returns an error or the binding predicate holds against the harness's ground truth (sector bytes, real roots, list model, host key, price table); distinct = (rpc, message, corruption, outcome); all runs non-trivial",
 		Real:        []string{"rhp4 RPC* client functions (the code under test)", "rhp4.Server as the honest core of the Byzantine host", "wallets, chain.Manager, reference contractor and sector store"},
 		Stub:        []string{"transport: simrhp typed relay rewriting host->renter messages", "disk: simdisk.DB"},
 		Assumptions: []string{"renew / refresh responses are corrupted in C16", "account balances and settings are unauthenticated by design and carry no binding claim"},
